@@ -29,6 +29,7 @@ type c07Variant struct {
 	OutDir      string            `json:"out_dir,omitempty"`
 	Stale       bool              `json:"stale,omitempty"`
 	PoolSeed    uint64            `json:"pool_seed,omitempty"`
+	Prelude     [][]string        `json:"prelude,omitempty"` // earlier invocations in the same process
 }
 
 type c07Pair struct {
@@ -63,6 +64,7 @@ func (p *c07Pair) spec(v *c07Variant) *simrt.Spec {
 		}
 		cc.Plugins = []plugSpec{{Name: "rec", Path: "/plug/rec", Opts: "k=v,flag", Script: map[string]interface{}{"decode": true, "out_prefix": "$OUT", "files": files}, Version: p.PlugVer}}
 	}
+	cc.Prelude = v.Prelude
 	sp := cc.spec(1)
 	sp.MapMode = v.MapMode
 	sp.MapSites = v.MapSites
@@ -214,8 +216,8 @@ func c07Check(a *artefacts, tier string, seed uint64, replay string) int {
 	rep := newReporter("C07")
 	bo := loadOptions(a)
 	r := simrt.NewRand(seed)
-	nPairs := 160
-	K := 4
+	nPairs := 150
+	K := 5
 	budget := 5 * time.Minute
 	if tier == "thorough" {
 		nPairs, K, budget = 6000, 8, 45*time.Minute
@@ -316,6 +318,7 @@ func c07Check(a *artefacts, tier string, seed uint64, replay string) int {
 		vars := []*c07Variant{
 			{Name: "maps-reversed+stale-output", MapMode: "reversed", Strategy: "rtb", Parallelism: 1, Stale: true},
 			{Name: "maps-random+schedule+parallelism", MapMode: "random", MapSeed: pr.Uint64(), Strategy: "random", SchedSeed: pr.Uint64(), Parallelism: 2 + pr.Intn(15), PoolSeed: pr.Uint64()},
+			{Name: "after-other-invocations-in-the-same-process", MapMode: "sorted", Strategy: "rtb", Parallelism: 1, Prelude: c07Prelude(pr, pair)},
 			{Name: "other-output-dir+stale-output", MapMode: "random", MapSeed: pr.Uint64(), Strategy: "pct", SchedSeed: pr.Uint64(), Parallelism: 1 + pr.Intn(16), OutDir: []string{"/elsewhere/deep/o2", "/work/gen-out", "/o"}[pr.Intn(3)], Stale: true},
 			{Name: "maps-random-2", MapMode: "random", MapSeed: pr.Uint64(), Strategy: "rtb", Parallelism: 1},
 			{Name: "schedule-only", MapMode: "sorted", Strategy: "random", SchedSeed: pr.Uint64(), Parallelism: 16, PoolSeed: pr.Uint64()},
@@ -564,6 +567,7 @@ func c07Isolate(a *artefacts, f *c07Found) []*c07Found {
 			v = w
 		}
 	}
+	try(func(w *c07Variant) { w.Prelude = nil })
 	try(func(w *c07Variant) { w.Stale = false })
 	try(func(w *c07Variant) { w.OutDir = "" })
 	try(func(w *c07Variant) { w.Strategy, w.SchedSeed, w.PoolSeed = "rtb", 0, 0 })
@@ -571,6 +575,9 @@ func c07Isolate(a *artefacts, f *c07Found) []*c07Found {
 	try(func(w *c07Variant) { w.MapMode, w.MapSeed, w.MapSites = "sorted", 0, nil })
 	dims := func(v *c07Variant, guilty string) string {
 		var d []string
+		if len(v.Prelude) > 0 {
+			d = append(d, "previous-invocations")
+		}
 		if v.Stale {
 			d = append(d, "stale-output")
 		}
@@ -766,4 +773,26 @@ func c07Replay(a *artefacts, path string) int {
 	}
 	fmt.Printf("replay of %s did not reproduce the recorded difference on this tree: %s\n", path, why)
 	return 0
+}
+
+// c07Prelude: invocations an SDK user could have made earlier in the same
+// process: the same IDL with other options and another backend, and a failing one.
+func c07Prelude(r *simrt.Rand, p *c07Pair) [][]string {
+	var out [][]string
+	goOpts := []string{"gen_setter,reorder_fields,package_prefix=example.com/c07", "naming_style=golint,ignore_initialisms", "template=slim,gen_deep_equal=false",
+		"with_reflection,with_field_mask", "keep_unknown_fields,json_enum_as_text,nil_safe", "trim_idl,use_type_alias", "naming_style=apache,compatible_names,snake_style_json_tag"}
+	n := 1 + r.Intn(3)
+	for i := 0; i < n; i++ {
+		switch r.Intn(5) {
+		case 0:
+			out = append(out, []string{"thriftgo", "-g", "fastgo:" + goOpts[r.Intn(len(goOpts))], "-r", "-o", fmt.Sprintf("/prelude/out%d", i), p.Main})
+		case 1:
+			out = append(out, []string{"thriftgo", "-g", "go", "-o", fmt.Sprintf("/prelude/out%d", i), "no-such-file.thrift"})
+		case 2:
+			out = append(out, []string{"thriftgo", "-g", "go:no_such_option=1", "-o", fmt.Sprintf("/prelude/out%d", i), p.Main})
+		default:
+			out = append(out, []string{"thriftgo", "-g", "go:" + goOpts[r.Intn(len(goOpts))], "-r", "-o", fmt.Sprintf("/prelude/out%d", i), p.Main})
+		}
+	}
+	return out
 }
